@@ -1,4 +1,6 @@
 import Secp.Proofs.History
+import Secp.Proofs.ScalarApiTiesArith
+import Secp.Proofs.ScalarApiTiesTests
 /-!
 # C10 — any history of element and scalar operations matches the abstract group model
 
@@ -51,6 +53,14 @@ theorem copy_independent (H : Bytes → Bytes) (s : CState) (i j : Nat) (hij : i
     (cstep H (cstep H s (.set i j)).1 op).1.el[j]? = s.el[j]? := by
   rw [(step_frame H _ op).1 j (by rw [hr]; exact fun h => hij (Option.some.inj h))]
   exact (step_frame H s (.set i j)).1 j (fun h => hij (Option.some.inj h))
+
+/-- the scalar steps of the concrete machine are the regenerated methods of `scalar.go` -/
+theorem scalar_steps_tied (s : L4) (t : Option L4) (i : Nat) :
+    GenScalarAPI.add s t = Hand.Scalar.add s t ∧ GenScalarAPI.subtract s t = Hand.Scalar.subtract s t ∧
+    GenScalarAPI.multiply s t = Hand.Scalar.multiply s t ∧ GenScalarAPI.square s = Hand.Scalar.square s ∧
+    GenScalarAPI.set s t = Hand.Scalar.set s t ∧ GenScalarAPI.setUInt64 i = Hand.Scalar.setUInt64 i ∧
+    GenScalarAPI.isOne s = Hand.Scalar.isOne s :=
+  ⟨ScalarApiTies.add_tie s t, ScalarApiTies.subtract_tie s t, ScalarApiTies.multiply_tie s t, rfl, ScalarApiTies.set_tie s t, rfl, rfl⟩
 
 /-- non-vacuity: the initial state satisfies the invariant and abstracts to the initial abstract state; all operations
 used by the generators are well-formed -/
